@@ -89,6 +89,15 @@ func genC18(r *Rng, tier string) *Plan {
 			e.Issuer = ents[r.Intn(i)].EffAlias()
 		}
 		if r.Chance(1, 12) {
+			// the same configuration in another spelling of the same document: UTF-16 with a byte order
+			// mark (YAML), or key names written through \u escapes (JSON)
+			if e.Format == "json" {
+				e.Enc = "esc"
+			} else {
+				e.Enc = Pick(r, []string{"utf16le", "utf16be"})
+			}
+		}
+		if r.Chance(1, 12) {
 			// a large file with little in it (comment block / white space in front of some key): what is
 			// read of a file must not depend on how long the file is
 			e.Bulk, e.Style = r.Range(5, 200), r.Intn(40)
